@@ -88,7 +88,7 @@ package transport
 //@   ensures [whole] err == nil ==> wire == old(wire) + plen(pkt) && ncarrierclose == old(ncarrierclose)
 //@   ensures [error-closes] err != nil ==> ncarrierclose == old(ncarrierclose) + 1 && wire == old(wire)
 //@   ensures [released] held == old(held)
-//@   modifies wire, ngrow, bufcap, buflen, elemsof(byte), ncarrierclose, held
+//@   modifies wire, ngrow, bufcap, buflen, elemsof(byte), ncarrierclose, held, pooled
 //@   at call 1 Write assert [locked] held[c.sendMutex] == 2
 //
 // Receive: one packet per call under receiveMutex; never a packet together
@@ -101,7 +101,7 @@ package transport
 //@   ensures [error-closes] err != nil ==> ncarrierclose == old(ncarrierclose) + 1
 //@   ensures [rearmed] err == nil ==> ndeadline == old(ndeadline) + 1 && ncarrierclose == old(ncarrierclose)
 //@   ensures [released] held == old(held)
-//@   modifies elemsof(byte), ngrow, nreadfull, bufcap, buflen, ncarrierclose, ndeadline, held
+//@   modifies elemsof(byte), ngrow, nreadfull, bufcap, buflen, ncarrierclose, ndeadline, held, pooled
 //@   at call 1 Read assert [locked] held[c.receiveMutex] == 2
 //
 // Close: everything accepted by earlier buffered sends is flushed before the
